@@ -22,4 +22,9 @@ unsigned int vp_nseq(void)
 #ifdef __cplusplus
 }
 #endif
+#elif defined(VP_NATIVE_MAIN)
+/* native replay of a harness entry that takes no operation table: the table accessors only have to link */
+extern "C" unsigned int vp_op(unsigned int) { return 0; }
+extern "C" unsigned int vp_nops(unsigned int) { return 0; }
+extern "C" unsigned int vp_nseq(void) { return 0; }
 #endif
